@@ -216,10 +216,15 @@ def run(ctx):
             hm = any(l[0] == 'truth' and l[2] is False and 'is_err' in fmt_sym(fb, l[1]) for l, e in lits) or any(l[0] == 'variant' and l[2] == 'Ok' for l, e in lits) or any(l[0]=='variant' and l[2]=='Err' and not l[3] for l,e in lits)
             # whole signature against the whole computed digest: no sub-slice on either side, the buffer is the digest-size array
             a0 = fmt_sym(fb, Ff.sym_operand(eqs[0].args[0])); a1 = fmt_sym(fb, Ff.sym_operand(eqs[0].args[1]))
-            whole = re.match(r'^&\(\*signature\(_\d+\)\)$', a0) and re.match(r'^&\*?(Index::index\(&tmp_signature\(_\d+\), RangeFull::RangeFull\)|tmp_signature\(_\d+\))$', a1)
+            # the second operand is the whole local digest buffer (a [u8; N] array, whatever it is called) that the HMAC was written into
+            m1 = re.match(r'^&\*?(?:Index::index\(&(\w+)\(_(\d+)\), RangeFull::RangeFull\)|(\w+)\(_(\d+)\))$', a1)
+            buf = int(m1.group(2) or m1.group(4)) if m1 else None
+            buf_ok = buf is not None and re.match(r'^\[u8; \d+\]$', fb.locals[buf]) is not None and any(
+                re.search(r'hash::hmac_sha(1|256)$', c_.callee) and len(c_.args) == 3 and re.search(r'\(_%d\)' % buf, fmt_sym(fb, Ff.sym_operand(c_.args[2]))) for c_ in fb.calls())
+            whole = re.match(r'^&\(\*signature\(_\d+\)\)$', a0) and buf_ok
             size_const = 'SHA1_SIZE' if fn.endswith('sha1') else 'SHA256_SIZE'
             want = {'SHA1_SIZE': 20, 'SHA256_SIZE': 32}[size_const]
-            arr = [t for t in fb.locals if re.match(r'^\[u8; %d\]$' % want, t)]
+            arr = [t for i_, t in enumerate(fb.locals) if re.match(r'^\[u8; %d\]$' % want, t) and (buf is None or i_ == buf)]
             lenlit = any(l[0] == 'cmp' and l[1] == 'eq' and l[2][0] == 'len' and Ff.const_int(l[3]) == want for l, e in lits)
             if not whole or not arr or not lenlit:
                 r.fail(rule, key, '%s does not compare the whole %d-byte signature with the whole computed digest (compares %s with %s; digest buffer %s; length test %s): '
